@@ -308,13 +308,15 @@ impl<'a> CompilerState<'a> {
             .map(|iin| (iin.0.to_string(), iin.1));
         let filename = self.mapped_lines[line_number].0.to_string();
         let line = self.mapped_lines[line_number].1;
-        match included_in {
-            Some(include) => println!(
+        // A warning that cannot be printed (closed pipe, full disk) is lost: println! would panic
+        let _ = match included_in {
+            Some(include) => writeln!(
+                std::io::stdout(),
                 "Warning: {} on line {} of {} (included in {} on line {})",
                 msg, line, filename, include.0, include.1
             ),
-            None => println!("Warning: {} on line {} of {}", msg, line, filename),
-        }
+            None => writeln!(std::io::stdout(), "Warning: {} on line {} of {}", msg, line, filename),
+        };
     }
 
     fn parse_int(&self, p: Pair<Rule>) -> Result<i32, Error> {
@@ -2527,7 +2529,7 @@ pub fn compile<I: BufRead, O: Write>(
         Err(e) => {
             if mapped_lines.is_empty() {
                 // Nothing reached the parser (empty input, or only comments and directives)
-                eprintln!("{}", e);
+                let _ = writeln!(std::io::stderr(), "{}", e);
                 return Err(Error::Syntax {
                     filename: args.input.clone(),
                     included_in: None,
@@ -2570,7 +2572,7 @@ pub fn compile<I: BufRead, O: Write>(
                     }
                 }
             };
-            eprintln!("{}", ex);
+            let _ = writeln!(std::io::stderr(), "{}", ex);
             return Err(Error::Syntax {
                 filename: filename.to_string(),
                 included_in: None,
